@@ -352,6 +352,7 @@ func checkC03(p *Prog, r *Report) {
 	/* Forwarder. */
 	checkC03Forwarder(p, r, rFw, rId, rOrd, top)
 	checkC03Sink(p, r, rId)
+	checkStreamLifetime(p, r, r.Rule("stream-lifetime", "nothing puts a clock on a shell's streams: no request-wide server deadline, TimeoutHandler or connection deadline, and the broker gets the request's own context (or a child without a deadline)"))
 	checkC03TerminalWriter(p, r, r.Rule("terminal-writer", "the io.Writer under the terminal library hands each slice it is given to the terminal once (no retry loop re-issuing the same slice)"))
 	/* Close notice after the proxy: from the connect model. */
 	if a := findConnect(p); 0 == len(a.Errs) {
@@ -783,4 +784,143 @@ func checkC03TerminalWriter(p *Prog, r *Report, ru *Rule) {
 			}
 		})
 	}
+}
+
+// checkStreamLifetime: a shell's streams last until the shell ends, however
+// long that is.  Nothing in the server's configuration puts a clock on them:
+// no whole-request deadline on the http.Server (ReadTimeout / WriteTimeout
+// cover the body, i.e. the stream), no http.TimeoutHandler, no deadline set
+// through the ResponseController, and the context the broker gets is the
+// request's own (or a child without a deadline).
+func checkStreamLifetime(p *Prog, r *Report, ru *Rule) {
+	/* 1. The context handed to the broker. */
+	n := 0
+	seen := map[*ssa.Call]bool{}
+	for _, rt := range muxRoutes(p) {
+		if nil == rt.Handler {
+			continue
+		}
+		for _, f := range withAnons(rt.Handler) {
+			eachInstr(f, func(i ssa.Instruction) {
+				call, ok := i.(*ssa.Call)
+				if !ok || seen[call] {
+					return
+				}
+				cc := call.Common()
+				callee := cc.StaticCallee()
+				if nil == callee || "Broker" != recvTypeName(callee) || !strings.HasPrefix(callee.Name(), "Connect") {
+					return
+				}
+				seen[call] = true
+				var ctxArg ssa.Value
+				for k, pa := range callee.Params {
+					if typeIs(pa.Type(), "context", "Context") && k < len(cc.Args) {
+						ctxArg = cc.Args[k]
+					}
+				}
+				if nil == ctxArg {
+					return
+				}
+				n++
+				c := fmt.Sprintf("%s→%s:context", fnName(rt.Handler), callee.Name())
+				bad := ""
+				v := ctxArg
+				for depth := 0; depth < 8 && nil != v && "" == bad; depth++ {
+					v = stripConv(resolveCell(v), false)
+					if ex, isEx := v.(*ssa.Extract); isEx {
+						v = ex.Tuple
+					}
+					cl, isCall := v.(*ssa.Call)
+					if !isCall {
+						break
+					}
+					switch nm := calleeName(cl.Common()); nm {
+					case "context.WithTimeout", "context.WithDeadline", "context.WithTimeoutCause", "context.WithDeadlineCause":
+						bad = nm
+					case "context.WithCancel", "context.WithCancelCause", "context.WithValue", "context.WithoutCancel":
+						v = cl.Common().Args[0]
+					default:
+						v = nil
+					}
+				}
+				if "" != bad {
+					ru.Bad(c, posOf(call), "the context the broker gets for this stream comes from %s: the shell is cut off when that clock runs out, whatever it is doing", bad)
+				} else {
+					ru.OK(c, posOf(call), "no deadline on the stream's context")
+				}
+			})
+		}
+	}
+	if n < 3 {
+		ru.Unproven("handlers:context", token.NoPos, "%d broker calls with a context found in the handlers, 3 expected", n)
+	}
+	/* 2, 3. Clocks on the server, the handler or the connection. */
+	nb := 0
+	for _, fn := range p.Funcs() {
+		if nil == fn.Pkg || !strings.HasSuffix(fn.Pkg.Pkg.Path(), "/"+hsrvPkg) {
+			continue
+		}
+		eachInstr(fn, func(i ssa.Instruction) {
+			if st, ok := i.(*ssa.Store); ok {
+				fv, base := fieldAddrOf(st.Addr)
+				if nil == fv || nil == base || !typeIs(base.Type(), "net/http", "Server") {
+					return
+				}
+				if "ReadTimeout" != fv.Name() && "WriteTimeout" != fv.Name() {
+					return
+				}
+				if k, isC := constInt(st.Val); isC && k <= 0 {
+					return
+				}
+				nb++
+				ru.Bad(fnName(fn)+":http.Server."+fv.Name(), posOf(st), "http.Server.%s is set: it is a deadline for the whole request or response, body included — that is, for the shell's stream", fv.Name())
+				return
+			}
+			cc := callCommon(i)
+			if nil == cc {
+				return
+			}
+			switch nm := calleeName(cc); nm {
+			case "net/http.TimeoutHandler":
+				nb++
+				ru.Bad(fnName(fn)+":TimeoutHandler", posOf(i), "handlers run under http.TimeoutHandler: a shell's stream is ended when the time is up")
+			case "(*net/http.ResponseController).SetReadDeadline", "(*net/http.ResponseController).SetWriteDeadline":
+				/* Clearing a deadline (the zero time) is fine. */
+				args := callArgs(cc)
+				if 2 == len(args) {
+					if isZeroTimeValue(args[1]) {
+						return
+					}
+				}
+				nb++
+				ru.Bad(fnName(fn)+":"+lastName(nm), posOf(i), "%s puts a deadline on the connection a shell's stream uses", lastName(nm))
+			}
+		})
+	}
+	if 0 == nb {
+		ru.OK("hsrv:no-stream-clock", token.NoPos, "no ReadTimeout/WriteTimeout, TimeoutHandler or connection deadline in hsrv")
+	}
+}
+
+// isZeroTimeValue: v is time.Time{} (a zero-initialised local which nothing
+// stores to).
+func isZeroTimeValue(v ssa.Value) bool {
+	v = stripConv(v, false)
+	u, ok := v.(*ssa.UnOp)
+	if !ok || token.MUL != u.Op {
+		return false
+	}
+	al, ok := u.X.(*ssa.Alloc)
+	if !ok {
+		return false
+	}
+	for _, ref := range *al.Referrers() {
+		switch t := ref.(type) {
+		case *ssa.UnOp, *ssa.DebugRef:
+		default:
+			_ = t
+			return false
+		}
+	}
+	return true
 }
